@@ -26,6 +26,9 @@ def build_case(cid, rng, dynamic, force_async=False, no_send=False, probes=False
     want_async = force_async or rng.random() < 0.45
     t = tg.random_trait(rng, "Tr", dyn_safe=True, allow_async=want_async, with_async_trait=(dynamic and want_async), allow_generic_trait=False)
     t.supers = [s for s in t.supers if "Sized" not in s]
+    t.const_pos = None
+    for m in t.methods:
+        m.typed_recv = False      # K12 (recorded finding): typed receivers are not converted for delegation-target traits
     if not want_async:
         for m in t.methods:
             m.is_async = False
@@ -192,6 +195,16 @@ def check_case(c, rep):
                 "trait_phase": [p for p in rec["phases"] if p["label"].startswith("trait:")][:1]}, limit=3)
 
 
+KNOWN_PIN2_SRC = """
+#[::entrait::entrait(TrImpl, delegate_by = DelegateTr)] /*@inv*/
+pub trait Tr { fn m(self: &Self, a: i32) -> i32; }
+pub struct Target;
+#[::entrait::entrait]
+impl TrImpl for Target { fn m<D>(deps: &D, a: i32) -> i32 { a } }
+pub struct App; impl DelegateTr<Self> for App { type Target = Target; }
+pub fn run() {}
+"""
+
 KNOWN_PIN_SRC = """
 #[::entrait::entrait(TrImpl, delegate_by = ref)] /*@inv*/
 pub trait Tr { fn name<'a>(&'a self) -> &'a str; }
@@ -212,19 +225,21 @@ def run(tier, seed):
     rng = core.rng_for(PROP, seed)
     cases = [build_case("c07_%04d" % i, rng, dynamic=rng.random() < 0.5) for i in range(n)]
     pin = Case("c07known_dyn_borrow", KNOWN_PIN_SRC, meta={"pin": "dyn_borrow_from_deps"})
+    pin2 = Case("c07known_typed_receiver", KNOWN_PIN2_SRC, meta={"pin": "typed_receiver_with_target"})
     st = selftest.case("selftest_c07")
     ws = core.Workspace(PROP, "x", deps=("async-trait",))
-    ws.extend(cases + [st, pin])
+    ws.extend(cases + [st, pin, pin2])
     ws.write()
     b = ws.build()
     ws.run(b["exes"])
     selftest.verify(st)
     for c in cases:
         check_case(c, rep)
-    if pin.removed is not None:
-        d = (pin.removed["diags"] or [{}])[0]
-        rep.violation(pin.id, "compile:%s:%s" % (d.get("code"), d.get("message", "")[:70]), "does not compile: %s" % d.get("message", "")[:300],
-                      pinned="dyn_borrow_from_deps")
+    for pn in (pin, pin2):
+        if pn.removed is not None:
+            d = (pn.removed["diags"] or [{}])[0]
+            rep.violation(pn.id, "compile:%s:%s" % (d.get("code"), d.get("message", "")[:70]), "does not compile: %s" % d.get("message", "")[:300],
+                          pinned=pn.meta["pin"])
     rep.bump("fixpoint_rounds", ws.rounds)
     core.floors(rep, calls_compared=n, trace_events=2 * n)
     return rep.finish({c.id: c for c in cases})
